@@ -187,6 +187,18 @@ pub fn dispatch(op: &str, a: &[&str]) -> Option<Ans> {
             };
             (res(&r).into(), sa)
         }
+        // pwhash_objverify_str <string as hex> <pwd>: the OBJECT route `PwHash::from_string(s)?.verify(pwd)` (the hash is recomputed with
+        // the stored hash's own length, whatever it is)
+        "pwhash_objverify_str" => {
+            let sb = unhex(a[0]);
+            let pwd = unhex(a[1]);
+            let s = match String::from_utf8(sb) { Ok(s) => s, Err(_) => return Some(("n/a".into(), "n/a".into())) };
+            let r = std::panic::catch_unwind(std::panic::AssertUnwindSafe(|| -> String {
+                let p: Result<VecPwHash, _> = PwHash::from_string(&s);
+                match p { Err(_) => "err".into(), Ok(p) => res(&p.verify(&pwd)).into() }
+            }));
+            (r.unwrap_or_else(|_| "panic".into()), "n/a".into())
+        }
         // pwhash_needs_rehash <string as hex> <opslimit> <memlimit>
         "pwhash_needs_rehash" => {
             let sb = unhex(a[0]);
